@@ -226,7 +226,10 @@ let eval inp obs =
         List.concat (List.init (m + 1) (fun pos -> List.map (fun t -> HRace (p, reqs, nat_of_int pos) :: t) tails))
       | h :: r -> List.map (fun t -> h :: t) (assignments r) in
     let cands = assignments hops in
-    let cands = if List.length cands > 200 then [hops] else cands in
+    (* up to 50000 assignments are searched (lazily: the search stops at the first that explains the
+       log); the former cap of 200 fell back to "unregistration first everywhere" for histories with
+       four races and produced a false alarm *)
+    let cands = if List.length cands > 50000 then [hops] else cands in
     let ok = (try
         let toks = List.filter (fun t -> t <> "STOPPED" && t.[0] <> 'M' && t.[0] <> 'X') obs in
         let (_, _, incs, pend) = parse_obs db toks in
@@ -249,8 +252,12 @@ let eval inp obs =
         List.concat (List.init (m + 1) (fun pos -> List.map (fun t -> HRace (p, reqs, nat_of_int pos) :: t) tails))
       | h :: r -> List.map (fun t -> h :: t) (assignments r) in
     let cands = assignments hops in
-    let cands = if List.length cands > 200 then [hops] else cands in
-    let matching = List.filter (fun hs -> obs_of_model cfg db hs obs = obs) cands in
+    (* up to 50000 assignments are searched (lazily: the search stops at the first that explains the
+       log); the former cap of 200 fell back to "unregistration first everywhere" for histories with
+       four races and produced a false alarm *)
+    let cands = if List.length cands > 50000 then [hops] else cands in
+    let matching = (match List.find_opt (fun hs -> obs_of_model cfg db hs obs = obs) cands with
+        | Some hs -> [hs] | None -> []) in
     let chosen = (match matching with hs :: _ -> hs | [] -> hops) in
     if Sys.getenv_opt "C17_RACE_STATS" <> None then
       List.iter (function HRace (_, reqs, pos) -> Printf.eprintf "RACE n=%d pos=%d matches=%d\n" (List.length reqs) (int_of_nat pos) (List.length matching) | _ -> ()) chosen;
